@@ -26,7 +26,7 @@ import z3
 
 from engine import py2smt as P
 
-PYX = '/repo/src/TotalDepth/LIS/core/src/cython/cRepCode.pyx'
+PYX = os.path.join(os.environ.get('VERIF_REPO') or '/repo', 'src/TotalDepth/LIS/core/src/cython/cRepCode.pyx')
 
 CTYPES = {
     'int': (32, True), 'signed int': (32, True), 'unsigned int': (32, False), 'signed long long': (64, True), 'long long': (64, True),
